@@ -158,6 +158,10 @@ theorem C05_recover_blocks_canonical : Skeleton.current.recoverBlocksCanonical =
 theorem C05_closure_release_never_waits :
     Skeleton.current.clFreeNeverWaits = true ∧ Skeleton.current.clInvokeOutsideLock = true := by decide
 
+/-- `Receive` fails only on a closed table — a context that is done already is registered and reported through the receive function, to that one caller — and the stub panics only on failures of the link (both checked against the regenerated skeleton; `utils/broadcaster.go` is outside this property's anchors). Otherwise a handler that invokes a callable (or makes any call) with a context of its own that has expired ends the link. -/
+theorem C05_expired_context_at_call_time_is_not_fatal :
+    Skeleton.current.bcReceiveErrorsOnlyClosed = true ∧ Skeleton.current.panicSitesCanonical = true := by decide
+
 end Panrpc.Ep
 
 #print axioms Panrpc.Ep.C05_closure_release_never_waits_for_a_running_closure
@@ -173,3 +177,4 @@ end Panrpc.Ep
 #print axioms Panrpc.Ep.C05_reflect_call_never_waits
 #print axioms Panrpc.Ep.C05_recover_blocks_canonical
 #print axioms Panrpc.Ep.C05_closure_release_never_waits
+#print axioms Panrpc.Ep.C05_expired_context_at_call_time_is_not_fatal
